@@ -13,6 +13,7 @@ def run(rep):
         rt_common.std_configs(rng, rep.tier, families=True),
         dfs=("bad_loss", "false"),
         search="c02_search", search_what="two clients, every messaging method, fair schedule; anomalies: 1 a call returned while alive but was never handed to the channel, 2 a client's calls executed out of issue order")
+    rt_common.interact_struct_part(rep, PID, random.Random(rep.seed + 13))
     runs = []
     for lib in gen_impl.LIBS:
         for ch in ((0, 1) if rep.tier == "quick" else (0, 1, 2, 3)):
